@@ -9,26 +9,26 @@ import sys
 
 VERIF = os.path.dirname(os.path.dirname(os.path.abspath(__file__)))
 AVOID = {
- 'C01': ['tal:case bound to the outermost instead of the nearest tal:switch', '__quote returning decoded bytes before escaping', 'tal:case closure capturing a renamed local of the tal:condition section', 'skipping the omit-tag cache when the element has no children', 'functools.lru_cache on tal.parse_defines'],
- 'C02': ['visit_cdata switching self.escape off and restoring the wrong attribute', 'visit_Content: elif skipping __quote when the value is translated (i18n:translate on a tal:content element)', 'TemplateLoader.load passing cls by keyword (cache key)', 'isinstance(target, (int, float)) fast path in __quote', 'escaping & with the __re_amp regex'],
- 'C03': ['BaseTemplate.digest hashing body.encode(\'ascii\', \'ignore\')', 'attribute-name regex narrowed to [\\w:.@-]+ in match_single_attribute', 'case-insensitive end tag pairing with the End node named after the start tag', 'prepare_attributes dropping repeated attribute names', 'content type from the meta element overriding the XML declaration in BaseTemplate.write'],
- 'C04': ['visit_Cancel emitting the case body before cancelling the switch', 'literal list/dict/set displays hoisted to module-level Static nodes', 'separate Value nodes for a dict-valued tal:attributes entry (evaluated twice)', 'lambda scope aliasing in the name rewriter', 'dict fast path in utils.lookup_attr'],
- 'C05': ['one shared backup variable for all names of a tuple define clause', 'NameLookupRewriteVisitor.visit_Lambda sharing the scope set by reference', 'Scope.copy linking to the parent instead of the root', 'merging rcontext into econtext only when len(rcontext) changed', 'scope keyword of a tal:define clause carried over to later clauses'],
- 'C06': ['has_interpolation gate regex without DOTALL in zpt/program.py', 'decode_htmlentities replaced by html.unescape', 'literal text copied into the % format string of an interpolation', '_interpolation stack moved to class level'],
- 'C07': ['PageTemplate.parse writing the resolved boolean_attributes back to self', 'digest normalising boolean_attributes with sorted(v or ())', 'split_parts rewritten with a look-around regex (;;; handling)', 'default marker value run through escaping in __quote'],
- 'C08': ['loop variables defaulted to None before the repeat expression is evaluated', 'RepeatDict mutable default d={} combined with setdefault(\'repeat\', RepeatDict())', 'visit_text not updating _last for text with an interpolation (repeat whitespace)', 'repeat index variable named after the loop variable instead of id(node)'],
- 'C09': ['DEFINE_SLOT and DEFINE wrappers swapped in visit_element', 'Compiler._slots created once in __init__ instead of per macro', 'Macros.__getitem__ calling cook_check only when the render function is missing', 'merging rcontext into econtext only when len(rcontext) changed'],
- 'C10': ['i18n.parse_attributes carrying msgid over to the next entry', 'i18n:name wrapper moved innermost in visit_element\'s wrap() list', '__re_whitespace regex changed to \\s{2,}', 'i18n backup variable named after the value', 'i18n:name stream variables named by name only'],
- 'C11': ['visit_end_tag leaving index entries of implicitly closed elements', 'ATTR_RE losing the re.S flag', 'one-pass Token.strip ignoring chars for the offset', 'lru_cache on parse_defines', 'PythonExpr rejection cache keyed by token text'],
- 'C12': ['lookup_attr letting the KeyError of the item fallback escape', 'RepeatDict.__call__ no longer materialising sized iterables', 'ExceptionFormatter caching its formatted message', 'removing __token = None before an in-template macro call', 'token table line/column via str.splitlines'],
- 'C13': ['a shared module-level len(__stream) AST node in visit_OnError', 'del __stream[:] in the function-level exception handler of render functions', 'visit_OnError skipping the try/except when the body has no TokenRef', '`if handler:` instead of `is not None`', '__length = __stream.__len__ bound once per function'],
- 'C14': ['self.global_builtins |= set(builtins) mutating the class-level set', 'cook() deleting all _render* attributes before installing the new ones', 'frozenset(I18N_ATTRIBUTES) passed to prepare_attributes (hash-seed dependent order)', 'mutable default argument in RepeatDict.__init__', 'search_path list not copied'],
- 'C15': ['get_pkg_digest memoised with lru_cache (shared hash object)', 'sys.modules[base] = module before exec_module in ModuleLoader._load', 'mkstemp without dir= plus shutil.move instead of os.rename', 'os.rename inside the with block before close', 'digest computed on a newline-normalised body'],
- 'C16': ['stale _render* sweep in cook() guarded by if self._cooked', 'auto_reload made an explicit parameter of PageTemplateFile.__init__ (not forwarded to the loader)', 'own directory inserted into the search path only if not already present', 'search_path copied only if not a list', 'parse() storing resolved boolean_attributes on the instance'],
- 'C17': ['UTF-8 BOM stripped first and demoted to the default encoding in read_bytes', 'BaseTemplateFile.read calling read_bytes without the template\'s default_encoding', 'PageTemplate.parse storing the HTML boolean attribute set on the instance', 'meta charset searched only in the first 1024 bytes', 'XML detection by match_xml_declaration regex on str input'],
- 'C18': ['prepare_attributes drop set lower-cased', 'HTML entities of statement values decoded before convert_data_attributes', 'namespace (DROP_NS) test folded into the omit flag in visit_element', 'empty tag sharing the namespace map (no copy)'],
- 'C19': ['TalesExpr dropping pipe alternatives after a literal without parsing them', 'empty tokens filtered out of the __tokens table', 'exc.token.source = body in BaseTemplate._cook\'s error handler', 'deferred error statements cached by token text', 'ExpressionParser caching compiled expressions by string'],
- 'C20': ['MacroProgram._interpolation stack as a class attribute', 'TemplateLoader.load passing cls by keyword (xml then text from one loader)', 'iter_text splitting the body into paragraphs', '$-parity decided by the regex \\$*$', 'visit_text gate regex (?<!\\$)\\$\\{'],
+ 'C01': ['tal:case bound to the outermost instead of the nearest tal:switch', '__quote returning decoded bytes before escaping', 'tal:case closure capturing a renamed local of the tal:condition section', 'skipping the omit-tag cache when the element has no children', 'functools.lru_cache on tal.parse_defines', 'None used instead of the __marker sentinel in _enter_assignment/_leave_assignment'],
+ 'C02': ['visit_cdata switching self.escape off and restoring the wrong attribute', 'visit_Content: elif skipping __quote when the value is translated (i18n:translate on a tal:content element)', 'TemplateLoader.load passing cls by keyword (cache key)', 'isinstance(target, (int, float)) fast path in __quote', 'escaping & with the __re_amp regex', 'char_escape tuple accumulated across the attributes of one start tag in _create_attributes_nodes'],
+ 'C03': ['BaseTemplate.digest hashing body.encode(\'ascii\', \'ignore\')', 'attribute-name regex narrowed to [\\w:.@-]+ in match_single_attribute', 'case-insensitive end tag pairing with the End node named after the start tag', 'prepare_attributes dropping repeated attribute names', 'content type from the meta element overriding the XML declaration in BaseTemplate.write', 'ElementParser sharing the default namespace table / visit_empty_tag without a copy of the namespace scope'],
+ 'C04': ['visit_Cancel emitting the case body before cancelling the switch', 'literal list/dict/set displays hoisted to module-level Static nodes', 'separate Value nodes for a dict-valued tal:attributes entry (evaluated twice)', 'lambda scope aliasing in the name rewriter', 'dict fast path in utils.lookup_attr', 'utils._resolve_dotted returning __import__(used) (the top-level package) for a not yet imported sub-module'],
+ 'C05': ['one shared backup variable for all names of a tuple define clause', 'NameLookupRewriteVisitor.visit_Lambda sharing the scope set by reference', 'Scope.copy linking to the parent instead of the root', 'merging rcontext into econtext only when len(rcontext) changed', 'scope keyword of a tal:define clause carried over to later clauses', 'functools.lru_cache on tal.parse_defines (shared names object -> shared __backup variable)'],
+ 'C06': ['has_interpolation gate regex without DOTALL in zpt/program.py', 'decode_htmlentities replaced by html.unescape', 'literal text copied into the % format string of an interpolation', '_interpolation stack moved to class level', '$-run parity loop rewritten with enumerate(reversed(part)) (off by one for an all-$ part)'],
+ 'C07': ['PageTemplate.parse writing the resolved boolean_attributes back to self', 'digest normalising boolean_attributes with sorted(v or ())', 'split_parts rewritten with a look-around regex (;;; handling)', 'default marker value run through escaping in __quote', 'exclusion names of a dict entry lower-cased in _create_attributes_nodes'],
+ 'C08': ['loop variables defaulted to None before the repeat expression is evaluated', 'RepeatDict mutable default d={} combined with setdefault(\'repeat\', RepeatDict())', 'visit_text not updating _last for text with an interpolation (repeat whitespace)', 'repeat index variable named after the loop variable instead of id(node)', 'repeat[name] save/restore emitted only when self._scopes[-1] has the name'],
+ 'C09': ['DEFINE_SLOT and DEFINE wrappers swapped in visit_element', 'Compiler._slots created once in __init__ instead of per macro', 'Macros.__getitem__ calling cook_check only when the render function is missing', 'merging rcontext into econtext only when len(rcontext) changed', 'visit_Macro emitting __slot_x = None for the template body (node.name is None)'],
+ 'C10': ['i18n.parse_attributes carrying msgid over to the next entry', 'i18n:name wrapper moved innermost in visit_element\'s wrap() list', '__re_whitespace regex changed to \\s{2,}', 'i18n backup variable named after the value', 'i18n:name stream variables named by name only', 'translate wrapper in PageTemplate.render rewritten with named keywords, context not forwarded'],
+ 'C11': ['visit_end_tag leaving index entries of implicitly closed elements', 'ATTR_RE losing the re.S flag', 'one-pass Token.strip ignoring chars for the offset', 'lru_cache on parse_defines', 'PythonExpr rejection cache keyed by token text', 're.findall(NAME, name) for the names of a multi-name define clause (plain str, position lost)'],
+ 'C12': ['lookup_attr letting the KeyError of the item fallback escape', 'RepeatDict.__call__ no longer materialising sized iterables', 'ExceptionFormatter caching its formatted message', 'removing __token = None before an in-template macro call', 'token table line/column via str.splitlines', 'ExpressionParser memoising parsed expression objects under Token keys'],
+ 'C13': ['a shared module-level len(__stream) AST node in visit_OnError', 'del __stream[:] in the function-level exception handler of render functions', 'visit_OnError skipping the try/except when the body has no TokenRef', '`if handler:` instead of `is not None`', '__length = __stream.__len__ bound once per function', 'on-error fallback wrapped in a start tag when `omit is not True` (omit-tag expression)'],
+ 'C14': ['self.global_builtins |= set(builtins) mutating the class-level set', 'cook() deleting all _render* attributes before installing the new ones', 'frozenset(I18N_ATTRIBUTES) passed to prepare_attributes (hash-seed dependent order)', 'mutable default argument in RepeatDict.__init__', 'search_path list not copied', 'render(encoding=...) stored on the template instance'],
+ 'C15': ['get_pkg_digest memoised with lru_cache (shared hash object)', 'sys.modules[base] = module before exec_module in ModuleLoader._load', 'mkstemp without dir= plus shutil.move instead of os.rename', 'os.rename inside the with block before close', 'digest computed on a newline-normalised body', 'cook() keeping dict insertion order of the builtins while digest() hashes sorted(names)'],
+ 'C16': ['stale _render* sweep in cook() guarded by if self._cooked', 'auto_reload made an explicit parameter of PageTemplateFile.__init__ (not forwarded to the loader)', 'own directory inserted into the search path only if not already present', 'search_path copied only if not a list', 'parse() storing resolved boolean_attributes on the instance', 'cook_check keeping _cooked set while a reload is in progress (stale local flag)'],
+ 'C17': ['UTF-8 BOM stripped first and demoted to the default encoding in read_bytes', 'BaseTemplateFile.read calling read_bytes without the template\'s default_encoding', 'PageTemplate.parse storing the HTML boolean attribute set on the instance', 'meta charset searched only in the first 1024 bytes', 'XML detection by match_xml_declaration regex on str input', 'PageTextTemplateFile.render encoding with content_encoding'],
+ 'C18': ['prepare_attributes drop set lower-cased', 'HTML entities of statement values decoded before convert_data_attributes', 'namespace (DROP_NS) test folded into the omit flag in visit_element', 'empty tag sharing the namespace map (no copy)', 'per-template cache prefix -> namespace in MacroProgram.visit_element'],
+ 'C19': ['TalesExpr dropping pipe alternatives after a literal without parsing them', 'empty tokens filtered out of the __tokens table', 'exc.token.source = body in BaseTemplate._cook\'s error handler', 'deferred error statements cached by token text', 'ExpressionParser caching compiled expressions by string', "'strict' dropped from the option tuple of PageTemplate.digest"],
+ 'C20': ['MacroProgram._interpolation stack as a class attribute', 'TemplateLoader.load passing cls by keyword (xml then text from one loader)', 'iter_text splitting the body into paragraphs', '$-parity decided by the regex \\$*$', 'visit_text gate regex (?<!\\$)\\$\\{', "'unbalanced braces' pre-filter in Interpolator.__call__'s back-off loop"],
 }
 
 
